@@ -319,6 +319,40 @@ def delivery_search(ctx, protos, hits):
                 break
         if done:
             continue
+        # the same question after a REJECTED frame: [full A, rejected frame, (deliver), repeat A, (deliver), full A]
+        cA1, e = engine.fresh_encode(p, base, repeat_count=1)
+        if cA1 is None or len(cA1.normalized_rlc) < 2:
+            continue
+        rA = list(cA1.normalized_rlc[-1])
+        rejected = [('garbage', [9000, -4500, 560, -560, 560, -1690, 560, -40000]),
+                    ('truncated frame', fA[:max(2, len(fA) // 2)]),
+                    ('frame with a far-off burst', fA[:2] + [fA[2] * 3] + fA[3:] if len(fA) > 3 else fA[:1]),
+                    ('frame of another protocol', [2400, -600, 1200, -600, 600, -600, 1200, -600, 600, -600, 600, -600, 600, -600,
+                                                   600, -600, 600, -600, 600, -600, 600, -600, 600, -600, 600, -25800])]
+        for label, bad in rejected:
+            outs = []
+            for deliver_first in (False, True):
+                with engine.class_guard(p['cls']):
+                    vlib.drain_workers()
+                    inst = p['cls']()
+                    outcome(p, inst, fA)
+                    ob = outcome(p, inst, bad)
+                    if deliver_first:
+                        deliver()
+                    o1 = outcome(p, inst, rA)
+                    if deliver_first:
+                        deliver()
+                    o2 = outcome(p, inst, fA)
+                    vlib.drain_workers()
+                outs.append((o1, o2))
+            ctx.count_eval(key=(name, 'delivery-after-rejected', label))
+            if outs[0] != outs[1]:
+                hits[name] = True
+                ctx.report(name, 'decode result depends on whether release notifications have been delivered',
+                           dict(parameter=label, sig='after ' + label),
+                           dict(protocol=name, keyA=base, rejected=bad, history=['full A', label, '(deliver)', 'repeat A', '(deliver)', 'full A'],
+                                pending=[list(map(str, o)) for o in outs[0]], delivered=[list(map(str, o)) for o in outs[1]]))
+                break
 
 
 def run(ctx):
